@@ -123,6 +123,7 @@ theorem stmt_main_sem : ∀ f : Nat,
         exact ⟨eff, hcomp, σIL', hx, hx, hinv'⟩
       | exprstmt e => simp [WFStmt] at hwf
       | ret e => simp [WFStmt] at hwf
+      | vcall n x a p => simp [WFStmt] at hwf
       | ite cnd t e =>
         -- the repaired lowering of the whole statement
         obtain ⟨⟨ef, stf⟩, hFs, hst⟩ := (stmt_state_sem hms hc hinv.inv env _ st hcarve hwf hwfe).ok_left hcomp
